@@ -45,6 +45,7 @@ def cases(tier, seed):
     for sc, c in common.add_algs(common.wide_scope(lvl),
                                  lambda c: common.wide_algs(c, lvl)):
         out.append((sc, dict(c, delay={"mode": "choice", "arity": 3})))
+    out += common.add_algs(common.park_scope(lvl), common.park_algs)
     return common.rotate(out, seed)
 
 
